@@ -13,7 +13,7 @@ they use *the same variable in the same places*, whatever its name.
 Every local callee is inlined (memoised), so helper functions, wrappers and closures are
 transparent; error paths (`Err(..)` / `?` failing arm) are not layouts and are dropped."""
 import re
-from lib import AnchorLost, hcall_is, hcall_str
+from lib import AnchorLost, hcall_is, hcall_str, hir_walk
 
 MAX_PATHS = 6000
 
@@ -248,6 +248,11 @@ class Lay:
                     m[p] = str(a["lit"])
                 else:
                     m[p] = _norm_key(_x(a))
+                    # the argument is the value returned by a first stage (`let header = Header::parse(parser)?;`): when
+                    # that stage ends with `Ok(Self { field: expr, .. })`, `p.field` in the callee is that expression
+                    lit = self._returned_struct(a, self.stack[-1] if self.stack else getattr(self, "root", None))
+                    if lit is not None:
+                        m[p] = lit
                 # a byte array of known size handed over as a slice: the callee writes `p` whole, i.e. that many bytes
                 for ty in (a.get("ty0", ""), a.get("ty", "")):
                     mm = re.search(r"\[u8; (\d+)\]", ty)
@@ -259,6 +264,56 @@ class Lay:
             if re.match(r"^\d+$", v):
                 m[g] = v
         return m
+
+    def _returned_struct(self, a, caller_node_fn):
+        """the struct literal a first stage returned: the argument `a` is a local of a crate struct type T, and a
+        function called by the same caller ends with `Ok(T { field: expr, .. })` (or `T { .. }`): `#S{field:expr,..}`"""
+        T = a.get("ty0") or ""
+        if not a.get("local") or "::" not in T or T.startswith(("std::", "core::", "alloc::", "&")):
+            return None
+        if not hasattr(self, "_ret_struct"):
+            self._ret_struct = {}
+        key = (T, caller_node_fn)
+        if key in self._ret_struct:
+            return self._ret_struct[key]
+        res = None
+        lits = set()
+        if caller_node_fn is not None:
+            for n in hir_walk(self.F.tree(caller_node_fn)):
+                c = n.get("callee") or {}
+                if n.get("k") != "call" or "rfn" not in c:
+                    continue
+                for m_ in hir_walk(self.F.tree(c["rfn"])):
+                    for arg in (m_.get("args") or []) if m_.get("k") == "call" else []:
+                        if arg.get("ty0") == T and re.match(r"^[\w:]+\{.*\}$", arg.get("nx") or ""):
+                            lits.add(arg["nx"])
+        if len(lits) == 1:
+            body = next(iter(lits))
+            body = body[body.index("{") + 1:-1]
+            parts, depth, cur = [], 0, ""
+            for ch in body:
+                if ch in "{([":
+                    depth += 1
+                elif ch in "})]":
+                    depth -= 1
+                if ch == "," and depth == 0:
+                    parts.append(cur); cur = ""
+                else:
+                    cur += ch
+            parts.append(cur)
+            fields = []
+            for p_ in parts:
+                p_ = p_.strip()
+                if not p_ or p_.startswith(".."):
+                    continue
+                if ":" in p_ and re.match(r"^\w+:", p_):
+                    k_, v_ = p_.split(":", 1)
+                else:
+                    k_, v_ = p_, p_
+                fields.append("%s:%s" % (k_.strip(), v_.strip()))
+            res = "#S{" + ",".join(fields) + "}"
+        self._ret_struct[key] = res
+        return res
 
     def flat_fn(self, fid):
         if fid in self.memo:
